@@ -10,6 +10,15 @@ Require Import Base Constants Fixed Price Risk.
 Definition no_venue : venue := mkVN VLOk 0 (Err ENone) 0.
 Definition no_staking : staking := mkSK (Err EPanic) (Err EPanic).
 
+Definition feed_of_oracle_venue (c : ocfg) (ais : list oacct) (vn : venue) (now : Z) : Risk.feed :=
+  let pf := px_try_from_bank c ais vn no_staking (mkCK now 0) in
+  let omc := oc_max_conf c in
+  let q (t : ptype) (b : option pbias) : res fx := let* f := pf in px_price_of_type f t b omc in
+  mkFeed (match pf with Ok _ => Ok tt | Err e => Err e end)
+         (q RealTime (Some PLow)) (q RealTime (Some PHigh))
+         (q TimeWeighted (Some PLow)) (q TimeWeighted (Some PHigh))
+         (q RealTime None).
+
 Definition feed_of_oracle (c : ocfg) (ais : list oacct) (now : Z) : Risk.feed :=
   let pf := px_try_from_bank c ais no_venue no_staking (mkCK now 0) in
   let omc := oc_max_conf c in
